@@ -62,9 +62,9 @@ type Profile struct {
 	OptionSwarm bool
 	// mode weights: depth,nodes,movetime,clock,infinite,ponder,mate,searchmoves
 	W           [8]int
-	MidReady    int // percent chance of isready during a search
-	Bursts      int // percent chance of stop/position/go burst
-	EarlyStop   int // percent chance to stop a self-limiting search early
+	MidReady    int  // percent chance of isready during a search
+	Bursts      int  // percent chance of stop/position/go burst
+	EarlyStop   int  // percent chance to stop a self-limiting search early
 	ConfigSwarm bool // flip non-UCI switches through direct configuration
 	Terminal    int  // percent chance a search is on a terminal / rule-draw root
 	NewGame     int  // percent chance of ucinewgame between searches
